@@ -18,7 +18,7 @@
    Only [exact lemma] statements followed by Print Assumptions. *)
 From Coq Require Import ZArith List Bool.
 From S3db Require Import Base KeyOrder RowMerge Tree Store KvProto Inst Stmt Mast.
-From S3db.proofs Require Import KeyOrderProofs RowMergeProofs TreeProofs StmtProofs ScanProofs MastProofs MastLevelProofs MastExamples.
+From S3db.proofs Require Import KeyOrderProofs RowMergeProofs TreeProofs StmtProofs ScanProofs MastProofs MastLevelProofs MastInvProofs MastExamples.
 Import ListNotations.
 Open Scope Z_scope.
 
@@ -143,6 +143,21 @@ Theorem C06_multilevel_lookup_finds_every_stored_row (lay : sval -> nat) (n : mt
 Proof. exact (get_complete_root lay n h k v). Qed.
 End C06_levels.
 
+(* every tree reached from the empty tree by Inserts over keys whose equal members have equal layers
+   (P_layers: false across INTEGER / REAL twins, finding F-C07-2): no Insert panics, the level
+   discipline holds, the contents are the sorted list's, and every lookup is the list's lookup *)
+Theorem C06_multilevel_inserts_never_panic_and_lookups_are_map_lookups
+  {V : Type} (bf : Z) (P : sval -> Prop)
+  (P_layers : forall a b, P a -> P b -> order_t a b = Eq -> klayer bf a = klayer bf b)
+  (P_safe : forall a, P a -> D a) (ops : list (sval * V)) (m : mast V) :
+  MInv bf P m -> Forall (fun kv => P (fst kv)) ops ->
+  exists m', run_inserts m ops = Some m' /\ MInv bf P m' /\
+    mast_flat m' = fold_left (fun t kv => t_insert (fst kv) (snd kv) t) ops (mast_flat m) /\
+    forall k, P k -> mast_get m' k = t_get k (mast_flat m').
+Proof. exact (inserts_never_panic_and_refine bf P P_layers P_safe ops m). Qed.
+Theorem C06_the_empty_tree_meets_the_invariant {V : Type} bf P : MInv (V := V) bf P (mast_empty bf).
+Proof. exact (empty_inv bf P). Qed.
+
 Theorem C06_three_level_tree_example :
   exists m, build 2 [1; 2; 3; 4; 5; 6; 7; 8] = Some m /\
     m_height m = 2%nat /\ m_size m = 8 /\
@@ -174,3 +189,5 @@ Print Assumptions C06_multilevel_lookup_answers_with_the_stored_row.
 Print Assumptions C06_multilevel_lookup_finds_every_stored_row.
 Print Assumptions C06_three_level_tree_example.
 Print Assumptions C06_descending_walk_refuted.
+Print Assumptions C06_multilevel_inserts_never_panic_and_lookups_are_map_lookups.
+Print Assumptions C06_the_empty_tree_meets_the_invariant.
